@@ -290,6 +290,8 @@ func RunShards(cfg *Config, ld *Loaded, shards []Shard, cvSample int) (*RunResul
 			res.Solver.Sat += solver.Stats.Sat
 			res.Solver.Unsat += solver.Stats.Unsat
 			res.Solver.Unknown += solver.Stats.Unknown
+			res.Solver.Retries += solver.Stats.Retries
+			res.Solver.Rescued += solver.Stats.Rescued
 			res.Solver.Dur += solver.Stats.Dur
 			if solver.Stats.MaxQuery > res.Solver.MaxQuery {
 				res.Solver.MaxQuery = solver.Stats.MaxQuery
@@ -385,7 +387,7 @@ func runPath(it *Interp, ex *Explorer, ld *Loaded, initFn *ssa.Function, sh Shar
 							pr.Outcome = "abort:failure while reporting a panic"
 						}
 					}()
-					if ex.s.Check() != "sat" {
+					if ex.s.CheckPath() != "sat" {
 						pr.Outcome = "infeasible"
 						return
 					}
@@ -400,7 +402,7 @@ func runPath(it *Interp, ex *Explorer, ld *Loaded, initFn *ssa.Function, sh Shar
 							pr.Outcome = "abort:failure while reporting a divergence"
 						}
 					}()
-					if ex.s.Check() != "sat" {
+					if ex.s.CheckPath() != "sat" {
 						pr.Outcome = "infeasible"
 						return
 					}
@@ -427,7 +429,7 @@ func runPath(it *Interp, ex *Explorer, ld *Loaded, initFn *ssa.Function, sh Shar
 	}
 	it.callFn(ld.entry(sh.Entry), args, nil)
 	// lazily asserted assumptions may have made the path infeasible
-	r := ex.s.Check()
+	r := ex.s.CheckPath()
 	if r == "unsat" {
 		pr.Outcome = "infeasible"
 		return pr
